@@ -11,6 +11,7 @@ Local Open Scope R_scope.
 Record GroupCore (G : GroupOps RS) : Type := mkCore {
   gc_valid : list R -> Prop;             (* right length and unit-norm rotation part *)
   gc_hom : list R -> list R;             (* a point in the homogeneous coordinates act() documents *)
+  gc_homo : list R -> list R -> list R;  (* the image point in homogeneous coordinates (SGal3: the time row carries t(X)) *)
   gc_compose_valid : forall X Y, gc_valid X -> gc_valid Y -> gc_valid (g_compose G X Y);
   gc_inverse_valid : forall X, gc_valid X -> gc_valid (g_inverse G X);
   gc_identity_valid : gc_valid (g_identity G);
@@ -18,7 +19,7 @@ Record GroupCore (G : GroupOps RS) : Type := mkCore {
      g_transform G (g_compose G X Y) = mmul (g_transform G X) (g_transform G Y);
   gc_identity_M : g_transform G (g_identity G) = mid (g_tra G);
   gc_act_M : forall X p, gc_valid X -> length p = g_actdim G ->
-     gc_hom (g_act G X p) = mvmul (g_transform G X) (gc_hom p);
+     gc_homo X (g_act G X p) = mvmul (g_transform G X) (gc_hom p);
   (* on coefficient vectors *)
   gc_assoc : forall X Y Z, gc_valid X -> gc_valid Y -> gc_valid Z ->
      g_compose G (g_compose G X Y) Z = g_compose G X (g_compose G Y Z);
@@ -27,10 +28,11 @@ Record GroupCore (G : GroupOps RS) : Type := mkCore {
   gc_inv_l : forall X, gc_valid X -> g_compose G (g_inverse G X) X = g_identity G;
   gc_inv_r : forall X, gc_valid X -> g_compose G X (g_inverse G X) = g_identity G
 }.
-Arguments gc_valid {G}. Arguments gc_hom {G}.
+Arguments gc_valid {G}. Arguments gc_hom {G}. Arguments gc_homo {G}.
 
 (* the statement of property C01 for one group *)
-Record GroupLaws (G : GroupOps RS) (valid : list R -> Prop) (hom : list R -> list R) : Prop := mkLaws {
+Record GroupLaws (G : GroupOps RS) (valid : list R -> Prop) (hom : list R -> list R)
+    (homo : list R -> list R -> list R) : Prop := mkLaws {
   gl_compose_valid : forall X Y, valid X -> valid Y -> valid (g_compose G X Y);
   gl_inverse_valid : forall X, valid X -> valid (g_inverse G X);
   gl_identity_valid : valid (g_identity G);
@@ -46,7 +48,7 @@ Record GroupLaws (G : GroupOps RS) (valid : list R -> Prop) (hom : list R -> lis
   gl_identity_M : g_transform G (g_identity G) = mid (g_tra G);
   (* act is the matrix applied to the homogeneous point *)
   gl_act_M : forall X p, valid X -> length p = g_actdim G ->
-     hom (g_act G X p) = mvmul (g_transform G X) (hom p);
+     homo X (g_act G X p) = mvmul (g_transform G X) (hom p);
   (* hence: associativity, neutrality, two-sided inverse (on coefficient vectors) *)
   gl_assoc : forall X Y Z, valid X -> valid Y -> valid Z ->
      g_compose G (g_compose G X Y) Z = g_compose G X (g_compose G Y Z);
@@ -56,9 +58,9 @@ Record GroupLaws (G : GroupOps RS) (valid : list R -> Prop) (hom : list R -> lis
   gl_inv_r : forall X, valid X -> g_compose G X (g_inverse G X) = g_identity G
 }.
 
-Lemma laws_of_core (G : GroupOps RS) (C : GroupCore G) : GroupLaws G (gc_valid C) (gc_hom C).
+Lemma laws_of_core (G : GroupOps RS) (C : GroupCore G) : GroupLaws G (gc_valid C) (gc_hom C) (gc_homo C).
 Proof.
-  destruct C as [valid hom cv iv idv cM iM aM asc nl nr il ir]; cbn [gc_valid gc_hom].
+  destruct C as [valid hom homo cv iv idv cM iM aM asc nl nr il ir]; cbn [gc_valid gc_hom gc_homo].
   constructor; auto.
   - intros X HX. rewrite <- cM by auto. rewrite il by auto. exact iM.
   - intros X HX. rewrite <- cM by auto. rewrite ir by auto. exact iM.
